@@ -87,6 +87,20 @@ def pair(ctx):
                         bad = bad or "a jump changes the call stack"
             if not seen_taken:
                 continue
+            # a transfer that fails (a guest memory access of the instruction faults) is not taken: with failing accesses
+            # switched on, a path that returns the fault without having written RIP records nothing
+            outs_f, _If = hm.run(code, shape, mem_fail_paths=True)
+            for o in outs_f:
+                if o.kind != "return" or not is_err(o) or not any(e[0] == "mem_fault" for e in o.path.events):
+                    continue
+                evs = o.path.events
+                fi = [i for i, e in enumerate(evs) if e[0] == "mem_fault"][0]
+                ripw = [e for e in evs[:fi] if e[0] == "reg_write" and U.reg_name(facts, e[2]) == "RIP"]
+                rec = [e for e in evs[:fi] if e[0] == "trace" or (e[0] == "mutcall" and e[1].endswith(("::push", "::pop"))
+                                                                 and fieldnames(e[2])[-1:] == ["call_stack"])]
+                if rec and not ripw:
+                    bad = bad or "a %s is recorded before the memory access that can still fail: a faulting %s leaves a record of a transfer that never happened" % (
+                        "trace entry" if rec[0][0] == "trace" else "call-stack change", want.lower())
             n += 1
             if bad:
                 ck.violation("C18.pair", inst, bad, where=where, what="trace / call stack do not describe the control transfer")
